@@ -130,6 +130,7 @@ type world struct {
 	inPoll          bool
 	cancelSet       map[*wop]bool
 	handlersInPoll  int
+	checkReady      bool // pollOnce requires deferred single-transfer operations on ready descriptors to complete
 	quiesce         bool
 
 	deepPC   sonic.PacketConn
@@ -153,9 +154,10 @@ type world struct {
 }
 
 type wtimer struct {
-	t     *sonic.Timer
-	armed bool
-	id    int
+	t      *sonic.Timer
+	armed  bool
+	closed bool
+	id     int
 }
 
 func (w *world) log(f string, a ...any) { w.trace = append(w.trace, fmt.Sprintf(f, a...)) }
@@ -1000,11 +1002,42 @@ func (w *world) atDepth(k int, fn func()) {
 }
 
 func (w *world) pollOnce() (int, error) {
+	// what the kernel says right now about the descriptors of the deferred single-transfer operations: an operation whose
+	// descriptor is ready for its direction before the poll must have been completed by it (epoll is level-triggered)
+	var ready []*wop
+	if w.checkReady {
+		for _, p := range w.ops {
+			o := p.o
+			if !p.inflight() || o.closed || o.broken || o.rawFd < 0 || o.kind == kRegFile {
+				continue
+			}
+			ev := int16(0)
+			switch p.kind {
+			case "read", "accept", "readFrom":
+				ev = sysx.POLLIN
+			case "write", "writeTo":
+				ev = sysx.POLLOUT
+			}
+			if ev == 0 {
+				continue // *All operations may need several transfers
+			}
+			if r, _ := sysx.PollFd(o.rawFd, ev, 0); r != 0 {
+				ready = append(ready, p)
+			}
+		}
+	}
 	w.inPoll = true
 	w.handlersInPoll = 0
 	n, err := w.ioc.PollOne()
 	w.inPoll = false
 	w.log("poll=(%d,%s;handlers=%d)", n, errShort(err), w.handlersInPoll)
+	for _, p := range ready {
+		if p.calls == 0 && !p.dropped && !p.o.closed && !p.o.broken {
+			r, _ := sysx.PollFd(p.o.rawFd, sysx.POLLIN|sysx.POLLOUT, 0)
+			w.fail("op #%d (%s on %s) was deferred, its descriptor was ready for it before PollOne (revents now %#x) and PollOne (n=%d) did not complete it: the poller is not watching that direction any more; Pending()=%d", p.id, p.kind, p.o.name(), r, n, w.ioc.Pending())
+			break
+		}
+	}
 	if w.handlersInPoll >= 2 {
 		w.batchMulti = true
 	}
